@@ -91,7 +91,7 @@ MODULES = [
         dict(name='R-closure-spec:mov-prev', pat='self.recursive_index_block(reader, |c| c.move_on_prev())',
              rep='self.recursive_index_block(reader, |c: &mut BlockCursor<Block>| -> (r: Option<(&[u8], &[u8])>) requires (*c).wf() ensures mover_post(MovKind::Prev, *old(c), *final(c), r) { c.move_on_prev() }, Ghost(MovKind::Prev))'),
         dict(name='R-ghost-arg:init-1', pat='self.initial_index_blocks(reader, mov)?', rep='self.initial_index_blocks(reader, mov, Ghost(kind))?'),
-        dict(name='R-iter-mut-index:none-arm', pat='None => self.inner = self.initial_index_blocks(reader, mov, Ghost(kind))?,', rep='false => self.inner = self.initial_index_blocks(reader, mov, Ghost(kind))?,'),
+        dict(name='R-iter-mut-index:none-arm', group='iter-mut-index', pat='None => self.inner = self.initial_index_blocks(reader, mov, Ghost(kind))?,', rep='false => self.inner = self.initial_index_blocks(reader, mov, Ghost(kind))?,'),
         # R-closure-by-ref: the one call that hands the mover on as `&mut mov` goes through a TRUSTED shim (spec: init_by_ref) stating
         # that the closure keeps its contract; its body is the original call
         dict(name='R-closure-by-ref:init-2', pat='self.initial_index_blocks(&mut reader, &mut mov)?', rep='self.init_by_ref(&mut *reader, &mut mov, Ghost(kind))?'),
@@ -110,7 +110,7 @@ MODULES = [
         #    let ve = &mut self.inner.as_mut().unwrap()[vi]; let offset = &mut ve.0; let cursor = &mut ve.1; B; vi += 1 } } false => X }`
         # (same element order, same statements B on the same element; `vi += 1;` is appended by the spec's loop_end part; B has no
         # `continue`). Needed because Verus cannot relate a reborrow taken OUTSIDE a loop to `final(self)` at an exit INSIDE the loop.
-        dict(name='R-iter-mut-index', pat='match self.inner.as_mut() {\n            Some(inner) => {\n                let mut jump_to_offset = self.base_block_offset;\n                for (offset, cursor) in inner {',
+        dict(name='R-iter-mut-index', group='iter-mut-index', pat='match self.inner.as_mut() {\n            Some(inner) => {\n                let mut jump_to_offset = self.base_block_offset;\n                for (offset, cursor) in inner {',
              rep='match self.inner.is_some() {\n            true => {\n                let mut jump_to_offset = self.base_block_offset;\n                let mut vi: usize = 0;\n                while vi < self.inner.as_ref().unwrap().len() {\n                    let ve = &mut self.inner.as_mut().unwrap()[vi];\n                    let offset = &mut ve.0;\n                    let cursor = &mut ve.1;'),
         dict(name='R-closure-spec:last', pat='.and_then(|inner| inner.last())',
              rep='.and_then(|inner: &Vec<(u64, BlockCursor<Block>)>| -> (r: Option<&(u64, BlockCursor<Block>)>) ensures (inner@.len() == 0 ==> r is None) && (inner@.len() > 0 ==> r is Some && *(r->0) == inner@.last()) { inner.last() })'),
@@ -156,10 +156,10 @@ MODULES = [
         # { self.heap.push(entry); } }` becomes a loop over a Vec holding first_entry followed by the drained entries, in the same order (on an early
         # exit the remaining entries are dropped, as with drain); the entry is taken apart and rebuilt because Verus forbids `&mut` to a field of a
         # type carrying a type invariant
-        dict(name='R-chain-drain', pat='for mut entry in once(first_entry).chain(self.tmp_entries.drain(..)) {',
+        dict(name='R-chain-drain', group='chain-drain', pat='for mut entry in once(first_entry).chain(self.tmp_entries.drain(..)) {',
              rep='let mut all_entries: Vec<Entry<R>> = Vec::new();\n        all_entries.push(first_entry);\n        all_entries.append(&mut self.tmp_entries);\n        for entry0 in all_entries {\n            let Entry { cursor: mut ecursor, source_index: eindex } = entry0;'),
-        dict(name='R-field-split:cursor', kind='re', pat=r'\bentry\.cursor\.move_on_next\(\)', rep='ecursor.move_on_next()', count='+'),
-        dict(name='R-field-split:push', pat='self.heap.push(entry)', rep='self.heap.push(Entry { cursor: ecursor, source_index: eindex })', count='+'),
+        dict(name='R-field-split:cursor', group='chain-drain', kind='re', pat=r'\bentry\.cursor\.move_on_next\(\)', rep='ecursor.move_on_next()', count='+'),
+        dict(name='R-field-split:push', group='chain-drain', pat='self.heap.push(entry)', rep='self.heap.push(Entry { cursor: ecursor, source_index: eindex })', count='+'),
         # R-enumerate: `for (index, mut source) in self.sources.into_iter().enumerate() { B }` becomes a counted loop over the Vec
         # (`index = index + 1;` is appended to the loop body by the spec's loop_end part; B has no `continue`)
         dict(name='R-enumerate', pat='for (index, mut source) in self.sources.into_iter().enumerate() {',
